@@ -54,6 +54,15 @@ checks = [
  chk("C16", "model_checking",
      "Histories of Parse calls on one parser object and Scan/Reset histories on one lexer object are recorded from the real code; the models start every Parse / every post-Reset scan from the fresh configuration, so TLC accepting the trace of the k-th call IS history independence; TLC also explores Reset at every call boundary of the Scan-loop model.",
      TRUST, "TLA+ spec (LRParse/LexScan + trace specs) + TLC model checking + trace validation of call histories", "5/C16"),
+ chk("C18", "model_checking",
+     "AddRange is transcribed case by case into Ranges.tla; TLC explores every sequence of closed intervals over a small universe up to the bound and checks the five partition properties (plus coarsest-partition) after every insertion, with -coverage proving all eleven cases are taken; the model's outcome table is replayed on the real DisjunctRangeSet in every insertion order (in-package test through go test -overlay), random sequences over the whole rune range are compared with an end-point construction.",
+     TRUST, "TLA+ transcription (Ranges.tla) exhaustively model-checked by TLC + model-based test replay on the real code", "5/C18"),
+ chk("C19", "model_checking",
+     "loadMd is transcribed into Md.tla with the property's reference (blank fences and prose, keep code/newlines/length); TLC checks equality for every input up to the bound inside the property's domain; the outcome table is replayed on the real loadMd/GetSource; end to end the .md run and the run on the concatenated fenced blocks must give byte-identical packages/exit status, and diagnostics must carry markdown positions.",
+     TRUST, "TLA+ transcription + reference (Md.tla) exhaustively model-checked by TLC + model-based test replay + end-to-end differential runs of gocc", "5/C19"),
+ chk("C20", "model_checking",
+     "LitConv.tla states Go's rune-literal rule and transcribes RuneValue/escapeCharVal; TLC enumerates every valid ASCII-spelled literal over the boundary digit set and checks agreement; the enumerated literals are replayed on util.RuneValue (generated), util.LitToRune (generator, overlay) and through one-token grammars on the real gocc. The all-code-points sweep and IntValue/UintValue are a plain Go loop against strconv (pure-function territory, outside TLC, stated as such).",
+     TRUST + " strconv.UnquoteChar as the definition of Go literal semantics for the sweep.", "TLA+ case analysis (LitConv.tla) evaluated by TLC as oracle and test generator + replay on the three real consumers; exhaustive Go sweep against strconv for the pure-function half", "5/C20"),
 ]
 
 claimed = {c["property_id"] for c in checks}
